@@ -52,6 +52,12 @@ pub struct Cfg3 {
     pub max_payload_buffer: usize,
     pub handle_qos_after_disconnect: Option<u8>,
     pub write_hw: usize,
+    /// seconds the peer has to complete CONNECT (0 = disabled)
+    #[serde(default)]
+    pub connect_timeout: u16,
+    /// frame read rate: (timeout s, max timeout s, bytes per timeout)
+    #[serde(default)]
+    pub frame_read_rate: Option<(u16, u16, u32)>,
     pub router: bool,
     pub hs: Hs3,
     pub connect: s3::Connect3,
@@ -71,6 +77,8 @@ impl Default for Cfg3 {
             max_payload_buffer: 32 * 1024,
             handle_qos_after_disconnect: None,
             write_hw: 0,
+            connect_timeout: 0,
+            frame_read_rate: None,
             router: false,
             hs: Hs3::default(),
             connect: s3::Connect3 { client_id: "cid".into(), clean_session: true, ..Default::default() },
@@ -90,8 +98,11 @@ impl Cfg3 {
             .set_min_chunk_size(self.min_chunk_size)
             .set_max_payload_buffer_size(self.max_payload_buffer)
             .set_handle_qos_after_disconnect(self.handle_qos_after_disconnect.map(conv::qos))
-            .set_connect_timeout(Seconds::ZERO);
+            .set_connect_timeout(Seconds(self.connect_timeout));
         let mut io = IoConfig::new().set_keepalive_timeout(Seconds::ZERO).set_disconnect_timeout(Seconds(1));
+        if let Some((t, mx, rate)) = self.frame_read_rate {
+            io = io.set_frame_read_rate(Seconds(t), Seconds(mx), rate);
+        }
         if self.write_hw != 0 {
             io = io.set_write_buf(self.write_hw, self.write_hw / 4, 0).set_write_buf_threshold(0);
         }
